@@ -13,7 +13,15 @@ correspondence leg   walks (option updates, train()/eval(), forwards, coefficien
 oracle leg           the property's predicates on the real objects after every forward pass:
                      probability vector (1e-6) per column; exactly one-hot at the largest raw
                      coefficient in eval mode and in hard non-Gumbel training; one-hot (1e-6) for
-                     hard Gumbel; reported index = exported alternative = arg-max of alpha.
+                     hard Gumbel; reported index = exported alternative = arg-max of alpha; in eval mode
+                     every read of a decision's coefficients *during* the forward (the input / weight
+                     scale of the bias quantizer) sees that one-hot too; export() does not raise on a
+                     legal (tie-free) coefficient matrix.
+
+Reading of "export() materialises that alternative": C10 demands *which* alternative every decision
+(every channel, for per-channel search) materialises — the precision of the quantizer each channel's
+weights end up under — and that export() produces a network at all; it does not demand that the
+exported network computes the same function (C02).
 """
 import json
 from fractions import Fraction
@@ -24,6 +32,8 @@ SAMPLERS = {'sample_alpha_sm': 'sm', 'sample_alpha_gs': 'gs', 'sample_alpha_none
 TEMPS = ['1/20', '1/10', '1/4', '1/2', '1', '2', '5', '20']
 K_DISABLED = 'C10:MPSQtz:eval:disable_sampling=1'
 K_SN_SOFT = 'C10:SuperNetCombiner:eval:hard=0'
+K_STALE_READ = 'C10:MPSQtz:eval:coefficients-read-before-resampling'
+ARCHS = ('res', 'res', 'res', 'shared', 'dw', 'conv1d')      # MPS model families (weights of the draw)
 
 
 # ------------------------------------------------------------------ generators
@@ -116,7 +126,8 @@ def _gen_cases(rng, n_quant, n_comb, n_mps, n_sn):
         wp = _rand_prec(rng, rng.randint(1, 8), allow_zero=False)
         ap = _rand_prec(rng, rng.randint(1, 5))
         c = rng.choice([2, 3, 4, 8, 16]) if pc else rng.choice([2, 4])
-        case = {'kind': 'mps', 'per_channel': pc, 'w_prec': wp, 'a_prec': ap, 'c': c}
+        case = {'kind': 'mps', 'per_channel': pc, 'w_prec': wp, 'a_prec': ap, 'c': c,
+                'arch': ARCHS[(i // 2) % len(ARCHS)]}
         shapes = _mps_shapes(case)
         case['ops'] = [['A', {k: _rand_alpha(rng, n, cc) for k, (n, cc) in shapes.items()}]] + \
             _rand_ops(rng, shapes, rng.randint(1, 6))
@@ -134,8 +145,16 @@ def _gen_cases(rng, n_quant, n_comb, n_mps, n_sn):
 def _mps_shapes(case):
     """coefficient tensors of the MPS test model: {qkey: (n alternatives, columns)}"""
     nw, na, c, pc = len(case['w_prec']), len(case['a_prec']), case['c'], case['per_channel']
+    w = lambda cols: (nw, cols if pc else 1)
+    arch = case.get('arch', 'res')
+    if arch == 'shared':      # c1(relu(c0(relu(c0(x))))): c0 invoked twice, its input quantizer is its own output quantizer
+        return {'x_input_quantizer.out': (na, 1), 'c0.out': (na, 1), 'c0.w': w(c), 'c1.out': (1, 1), 'c1.w': w(2)}
+    if arch == 'dw':          # pw(relu(dw(relu(c0(x))))): the depthwise conv shares c0's quantizers
+        return {'x_input_quantizer.out': (na, 1), 'c0.out': (na, 1), 'c0.w': w(c), 'pw.out': (1, 1), 'pw.w': w(2)}
+    if arch == 'conv1d':      # c1(relu(c0(x))) with Conv1d layers
+        return {'x_input_quantizer.out': (na, 1), 'c0.out': (na, 1), 'c0.w': w(c), 'c1.out': (1, 1), 'c1.w': w(3)}
     return {'x_input_quantizer.out': (na, 1), 'c0.out': (na, 1), 'c1.out': (na, 1), 'fc.out': (1, 1),
-            'c0.w': (nw, c if pc else 1), 'c1.w': (nw, c if pc else 1), 'fc.w': (nw, 3 if pc else 1)}
+            'c0.w': w(c), 'c1.w': w(c), 'fc.w': w(3)}
 
 
 # ------------------------------------------------------------------ real side
@@ -157,9 +176,42 @@ class _Obj:
         self.reports = []          # (layer name, role) pairs whose summary/export entries come from it
 
 
-def _mk_mps_net(c):
+def _mk_mps_net(c, arch='res'):
+    """returns (network, input shape without batch)"""
     import torch
     import torch.nn as nn
+
+    if arch == 'shared':
+        class Sh(nn.Module):
+            def __init__(s):
+                super().__init__()
+                s.c0 = nn.Conv2d(c, c, 3, padding=1)
+                s.c1 = nn.Conv2d(c, 2, 1)
+
+            def forward(s, x):
+                return s.c1(torch.relu(s.c0(torch.relu(s.c0(x)))))
+        return Sh(), (c, 4, 4)
+    if arch == 'dw':
+        class Dw(nn.Module):
+            def __init__(s):
+                super().__init__()
+                s.c0 = nn.Conv2d(3, c, 1)
+                s.dw = nn.Conv2d(c, c, 3, padding=1, groups=c)
+                s.pw = nn.Conv2d(c, 2, 1)
+
+            def forward(s, x):
+                return s.pw(torch.relu(s.dw(torch.relu(s.c0(x)))))
+        return Dw(), (3, 4, 4)
+    if arch == 'conv1d':
+        class C1(nn.Module):
+            def __init__(s):
+                super().__init__()
+                s.c0 = nn.Conv1d(2, c, 3, padding=1)
+                s.c1 = nn.Conv1d(c, 3, 3, padding=1)
+
+            def forward(s, x):
+                return s.c1(torch.relu(s.c0(x)))
+        return C1(), (2, 8)
 
     class N(nn.Module):
         def __init__(s):
@@ -173,7 +225,7 @@ def _mk_mps_net(c):
             a = torch.relu(s.c0(x))
             b = torch.relu(s.c1(a))
             return s.fc((s.c2(b) + a).flatten(1))
-    return N()
+    return N(), (3, 4, 4)
 
 
 def _mk_sn_net(ns, gumbel, hard):
@@ -235,10 +287,11 @@ class _Target:
         elif k == 'mps':
             from plinio.methods.mps import MPS, MPSType, get_default_qinfo
             from plinio.cost import params_bit
-            m = MPS(_mk_mps_net(case['c']), input_shape=(3, 4, 4), cost=params_bit,
+            net, shape = _mk_mps_net(case['c'], case.get('arch', 'res'))
+            m = MPS(net, input_shape=shape, cost=params_bit,
                     w_search_type=MPSType.PER_CHANNEL if case['per_channel'] else MPSType.PER_LAYER,
                     qinfo=get_default_qinfo(tuple(case['w_prec']), tuple(case['a_prec'])))
-            self.model, self.x = m, torch.rand(1, 3, 4, 4)
+            self.model, self.x = m, torch.rand(1, *shape)
             by_id = {}
             for lname, _, layer in m._unique_leaf_modules:
                 for role in ('out', 'w', 'in'):
@@ -254,6 +307,11 @@ class _Target:
                                             [int(p) for p in q.precision.tolist()])
                         self.objs.append(by_id[id(q)])
                     by_id[id(q)].reports.append((lname, role))
+            want = _mps_shapes(case)
+            have = {o.key: (o.mod.alpha.shape[0], 1 if o.mod.alpha.dim() == 1 else o.mod.alpha.shape[1]) for o in self.objs}
+            if want != have:
+                raise AssertionError('harness: coefficient tensors of the %s model are %s, expected %s'
+                                     % (case.get('arch', 'res'), have, want))
         elif k == 'supernet':
             from plinio.methods import SuperNet
             from plinio.cost import params
@@ -272,8 +330,27 @@ class _Target:
     def apply(self, op):
         import torch
         t = op[0]
+        self.reads = {}
         if t == 'fwd':
-            if self.model is not None:
+            if self.kind == 'mps':
+                # record what every read of a decision's coefficients during the forward sees
+                # (`effective_scale`: the input / weight scale handed to the bias quantizer)
+                from plinio.methods.mps.nn.qtz import MPSBaseQtz
+                orig = MPSBaseQtz.__dict__['effective_scale']
+                key_of = {id(o.mod): o.key for o in self.objs}
+                reads = self.reads
+
+                def _get(q):
+                    if id(q) in key_of:
+                        th = q.theta_alpha.detach()
+                        reads.setdefault(key_of[id(q)], []).append([th.tolist()] if th.dim() == 1 else th.t().tolist())
+                    return orig.fget(q)
+                MPSBaseQtz.effective_scale = property(_get)
+                try:
+                    self.model(self.x)
+                finally:
+                    MPSBaseQtz.effective_scale = orig
+            elif self.model is not None:
                 self.model(self.x)
             else:
                 self.objs[0].mod(self.x)
@@ -334,7 +411,8 @@ class _Target:
             out[o.key] = {'smp': SAMPLERS.get(m.sample_alpha.__name__, m.sample_alpha.__name__), 'T': T,
                           'h': int(bool(m.hard_softmax)), 'tr': int(bool(m.training)), 'theta': cols,
                           'amax': (torch.argmax(al, dim=0).reshape(-1).tolist()),
-                          'alpha': [al.tolist()] if al.dim() == 1 else al.t().tolist(), 'rep': rep}
+                          'alpha': [al.tolist()] if al.dim() == 1 else al.t().tolist(), 'rep': rep,
+                          'reads': getattr(self, 'reads', {}).get(o.key, [])}
         return out
 
     # ---- what export materialises
@@ -349,7 +427,10 @@ class _Target:
                     if hasattr(layer, 'weight'):
                         for c in range(layer.weight.shape[0]):
                             layer.weight.data[c] = float(c + 1)      # ID-probe the channels
-            e = self.model.export()
+            try:
+                e = self.model.export()
+            except Exception as ex:
+                return {'__raised__': _export_failure(ex)}
             for o in self.objs:
                 res = []
                 for lname, role in o.reports:
@@ -373,6 +454,24 @@ class _Target:
                                 if n.startswith(o.key + '.sn_branches.')})
                 out[o.key] = [['branch', alive]]
         return out
+
+
+def _export_failure(ex):
+    """class of an exception raised by export(): the layer being exported (from the traceback), whether it is
+    a depthwise / grouped convolution, per-channel or per-layer search, and the exception type"""
+    layer, tb = None, ex.__traceback__
+    while tb is not None:
+        if tb.tb_frame.f_code.co_name == 'export' and 'submodule' in tb.tb_frame.f_locals:
+            layer = tb.tb_frame.f_locals['submodule']
+        tb = tb.tb_next
+    cls = type(layer).__name__ if layer is not None else 'unknown'
+    g = getattr(layer, 'groups', 1)
+    kind = 'depthwise:' if g > 1 and g == getattr(layer, 'in_channels', 0) == getattr(layer, 'out_channels', 0) else \
+        'grouped:' if g > 1 else ''
+    wq = getattr(layer, 'w_mps_quantizer', None)
+    search = 'per-channel' if type(wq).__name__ == 'MPSPerChannelQtz' else 'per-layer'
+    return {'key': 'C10:%s:%s:%sexport-raises:%s' % (cls, search, kind, type(ex).__name__),
+            'what': '%s: %s' % (type(ex).__name__, str(ex)[:200])}
 
 
 def _exec_case(case):
@@ -586,6 +685,22 @@ def _oracle(chk, case, res):
                 elif (not must_hard) and f['g'] and f['h'] and not (f['d'] and not sn) and _onehot_idx(col, 1e-6) is None:
                     chk.violation('C10:%s:train:gumbel-hard-not-onehot' % CLASSNAME[cls],
                                   'hard Gumbel sample is not one-hot: %s' % col[:8], dict(base, column=j, theta=col))
+            # what is *evaluated*: in eval mode every read of the coefficients during the forward sees the
+            # one-hot at the largest raw coefficient as well (not a sample left by an earlier forward)
+            if not f['tr'] and not (f['d'] and not sn):
+                for r, cols in enumerate(o.get('reads', [])):
+                    for j, col in enumerate(cols):
+                        if _onehot_idx(col) != _argmax(o['alpha'][j]) and _onehot_idx(o['theta'][j]) == _argmax(o['alpha'][j]):
+                            chk.violation(K_STALE_READ, 'eval-mode forward: read #%d of the coefficients of %s (scale of the '
+                                          'bias quantizer) sees %s, left by an earlier forward, before the quantizer is '
+                                          're-sampled to the one-hot at index %d' % (r, key, [round(v, 4) for v in col[:8]],
+                                                                                    _argmax(o['alpha'][j])),
+                                          dict(base, column=j, read=r, theta_read=col))
+    if '__raised__' in res['exp']:
+        fail = res['exp']['__raised__']
+        chk.violation(fail['key'], 'export() raises on a tie-free coefficient assignment that summary() reports and the '
+                      'eval-mode forward evaluates: ' + fail['what'],
+                      {'kind': 'walk', 'case': case, 'at_op': len(case['ops']) - 1, 'object': 'export()'})
     # reported = exported = arg-max of the raw coefficients, at every observation point / at the end
     for i in range(len(obs)):
         for key, cls, prec, _ in res['objs']:
